@@ -480,7 +480,9 @@ def extract(group, workdir):
     if r.returncode != 0:
         raise Undecided("vx failed: " + r.stderr[-1500:])
     items = json.loads(r.stdout)
-    bad = [(i["id"], i["error"]) for i in items if not i["ok"]]
+    assumed_ids = set(it["id"] for it in group["items"] if it.get("assume"))
+    # an assumed item contributes only its signature: rewrite problems inside its body do not matter
+    bad = [(i["id"], i["error"]) for i in items if not i["ok"] and not (i["id"] in assumed_ids and i["text"].strip())]
     if bad:
         raise Undecided("extraction failed (unsupported construct or lost anchor): %s" % bad)
     # format all at once, separated by sentinel comments
@@ -708,6 +710,9 @@ def build_group(name, canary=True):
         pre, us = parse_contract(os.path.join(ROOT, cf))
         preamble_parts.append("// ---- from %s\n%s" % (cf, pre))
         for uid, u in us.items():
+            allowed = group.get("unit_files", {}).get(uid)
+            if allowed is not None and cf not in allowed:
+                continue  # this group takes the unit's contract only from the listed files (interface contract)
             if uid in units:
                 o = units[uid]
                 o.requires += u.requires
